@@ -14,6 +14,16 @@ import (
 // verifFS across close/reopen; natively (replay) the model is not installed and the real mmap
 // pages in a temporary directory are used instead.
 
+// verifFaultOnClosedStore: a store to a page that was closed (unmapped) is a fault, as it is for
+// the real mapped pages (SIGSEGV, not recoverable); harnesses that look for stale writers set it
+var verifFaultOnClosedStore bool
+
+func (p *verifPage) checkMapped() {
+	if verifFaultOnClosedStore && p.closed {
+		panic("store to an unmapped page (SIGSEGV natively)")
+	}
+}
+
 type verifPage struct {
 	path   string
 	data   []byte
@@ -23,6 +33,7 @@ type verifPage struct {
 
 func (p *verifPage) FilePath() string { return p.path }
 func (p *verifPage) WriteBytes(data []byte, offset int) {
+	p.checkMapped()
 	if p.fs.dead() {
 		return
 	}
@@ -30,6 +41,7 @@ func (p *verifPage) WriteBytes(data []byte, offset int) {
 }
 func (p *verifPage) ReadBytes(offset, length int) []byte { return p.data[offset : offset+length] }
 func (p *verifPage) PutUint64(v uint64, offset int) {
+	p.checkMapped()
 	if p.fs.dead() {
 		return
 	}
@@ -45,6 +57,7 @@ func (p *verifPage) ReadUint64(offset int) uint64 {
 	return v
 }
 func (p *verifPage) PutUint32(v uint32, offset int) {
+	p.checkMapped()
 	if p.fs.dead() {
 		return
 	}
